@@ -213,16 +213,18 @@ PROPS = {
                    "infoset pairwise distinct actions (else ActionsNotUnique) and is recorded with this player's previous infoset; "
                    "the subtrees below a multi-action decision node are built with exactly this player's memory updated. Partial: see note.",
         level_note="Per-node checks only, with the recursive call and the IndexMap / HashMap / HashSet tables bound to uninterpreted "
-                   "functions / assumed contracts. NOT decided: the EmptyChance / EmptyPlayer dispatch on the number of children, the "
+                   "functions / assumed contracts. The dispatch on the number of children (EmptyChance, a single outcome takes the node's place, EmptyPlayer, single-action route) is "
+                   "decided too. NOT decided: the body of the "
                    "single-action arm (its HashMap entry code), renormalisation of chance weights, the composition over the tree "
                    "('succeeds if and only if'), 'never panics', from_root's final conversion of the builders.",
         verus=[U("c11_init_recurse", ["C11.V.init_recurse.terminal_finite", "C11.V.init_recurse.chance_weight", "C11.V.init_recurse.chance_outcome_kept",
                                        "C11.V.init_recurse.same_probabilities", "C11.V.init_recurse.same_actions", "C11.V.init_recurse.perfect_recall",
-                                       "C11.V.init_recurse.distinct_actions", "C11.V.init_recurse.records_infoset", "C11.V.init_recurse.recall_bookkeeping"])],
+                                       "C11.V.init_recurse.distinct_actions", "C11.V.init_recurse.records_infoset", "C11.V.init_recurse.recall_bookkeeping",
+                                       "C11.V.init_recurse.empty_chance", "C11.V.init_recurse.single_outcome_elided", "C11.V.init_recurse.empty_player", "C11.V.init_recurse.player_dispatch"])],
         kani_functions=[],
         trusted_base=["uninterpreted float semantics + IEEE classification facts (Kani harness ieee_classification)",
                       "assumed contracts on compact::{OccupiedEntry, VacantEntry} (IndexMap), slice comparison, HashSet::len of collected references"],
-        not_decided=["composition over the tree (succeeds iff every node satisfies every rule)", "EmptyChance / EmptyPlayer / single-action arm", "never panics", "chance weight renormalisation"],
+        not_decided=["composition over the tree (succeeds iff every node satisfies every rule)", "body of the single-action arm", "never panics", "chance weight renormalisation", "from_root's conversion of the builders"],
     ),
     "C13": dict(
         level="proof",
